@@ -5,6 +5,7 @@ package main
 import (
 	"context"
 	"fmt"
+	"sort"
 	"strings"
 
 	"github.com/cyrildever/feistel"
@@ -129,18 +130,19 @@ func flattenTraces(td ptrace.Traces) *items {
 			it.str(2, ss.Scope().Version())
 			for k := 0; k < ss.Spans().Len(); k++ {
 				sp := ss.Spans().At(k)
-				it.str(13, fmt.Sprintf("P%s%s%d%d%d", sp.TraceID(), sp.SpanID(), sp.Kind(), sp.StartTimestamp(), sp.EndTimestamp()))
+				it.str(13, fmt.Sprintf("P%s%s%d%d%d|%s|%d|%d|%d|%d|%d", sp.TraceID(), sp.SpanID(), sp.Kind(), sp.StartTimestamp(), sp.EndTimestamp(),
+					sp.ParentSpanID(), sp.Flags(), sp.Status().Code(), sp.DroppedAttributesCount(), sp.DroppedEventsCount(), sp.DroppedLinksCount()))
 				it.str(3, sp.Name())
 				it.str(4, sp.Status().Message())
 				it.str(6, sp.TraceState().AsRaw())
 				it.attrsItem(sp.Attributes())
 				for e := 0; e < sp.Events().Len(); e++ {
-					it.str(13, fmt.Sprintf("E%d", sp.Events().At(e).Timestamp()))
+					it.str(13, fmt.Sprintf("E%d|%d", sp.Events().At(e).Timestamp(), sp.Events().At(e).DroppedAttributesCount()))
 					it.str(5, sp.Events().At(e).Name())
 					it.attrsItem(sp.Events().At(e).Attributes())
 				}
 				for l := 0; l < sp.Links().Len(); l++ {
-					it.str(13, fmt.Sprintf("L%s", sp.Links().At(l).SpanID()))
+					it.str(13, fmt.Sprintf("L%s|%s|%q|%d|%d", sp.Links().At(l).SpanID(), sp.Links().At(l).TraceID(), sp.Links().At(l).TraceState().AsRaw(), sp.Links().At(l).Flags(), sp.Links().At(l).DroppedAttributesCount()))
 					it.attrsItem(sp.Links().At(l).Attributes())
 				}
 			}
@@ -163,7 +165,7 @@ func flattenLogs(ld plog.Logs) *items {
 			it.str(2, sl.Scope().Version())
 			for k := 0; k < sl.LogRecords().Len(); k++ {
 				lr := sl.LogRecords().At(k)
-				it.str(13, fmt.Sprintf("G%d%d", lr.Timestamp(), lr.SeverityNumber()))
+				it.str(13, fmt.Sprintf("G%d%d|%d|%d|%d|%q|%s|%s|%d", lr.Timestamp(), lr.SeverityNumber(), lr.ObservedTimestamp(), lr.Flags(), lr.DroppedAttributesCount(), lr.EventName(), lr.TraceID(), lr.SpanID(), lr.Body().Type()))
 				it.str(7, lr.Body().AsString())
 				it.str(11, lr.SeverityText())
 				it.attrsItem(lr.Attributes())
@@ -186,7 +188,7 @@ func flattenMetrics(md pmetric.Metrics) *items {
 			it.str(1, sm.Scope().Name())
 			for k := 0; k < sm.Metrics().Len(); k++ {
 				m := sm.Metrics().At(k)
-				it.str(13, fmt.Sprintf("M%d", m.Type()))
+				it.str(13, fmt.Sprintf("M%d|%v", m.Type(), m.Metadata().AsRaw()))
 				it.str(8, m.Name())
 				it.str(9, m.Description())
 				it.str(10, m.Unit())
@@ -194,31 +196,35 @@ func flattenMetrics(md pmetric.Metrics) *items {
 				case pmetric.MetricTypeGauge:
 					for q := 0; q < m.Gauge().DataPoints().Len(); q++ {
 						p := m.Gauge().DataPoints().At(q)
-						it.str(13, fmt.Sprintf("D%d%v%v", p.Timestamp(), p.IntValue(), p.DoubleValue()))
+						it.str(13, fmt.Sprintf("D%d%v%v|%d|%d|%s", p.Timestamp(), p.IntValue(), p.DoubleValue(), p.Flags(), p.StartTimestamp(), exemplarsKey(p.Exemplars())))
 						it.attrsItem(p.Attributes())
 					}
 				case pmetric.MetricTypeSum:
 					for q := 0; q < m.Sum().DataPoints().Len(); q++ {
 						p := m.Sum().DataPoints().At(q)
-						it.str(13, fmt.Sprintf("D%d%v%v", p.Timestamp(), p.IntValue(), p.DoubleValue()))
+						it.str(13, fmt.Sprintf("D%d%v%v|%d|%d|%s", p.Timestamp(), p.IntValue(), p.DoubleValue(), p.Flags(), p.StartTimestamp(), exemplarsKey(p.Exemplars())))
 						it.attrsItem(p.Attributes())
 					}
 				case pmetric.MetricTypeHistogram:
 					for q := 0; q < m.Histogram().DataPoints().Len(); q++ {
 						p := m.Histogram().DataPoints().At(q)
-						it.str(13, fmt.Sprintf("D%d%d", p.Timestamp(), p.Count()))
+						it.str(13, fmt.Sprintf("D%d%d|%d|%v|%v|%s", p.Timestamp(), p.Count(), p.Flags(), p.BucketCounts().AsRaw(), p.ExplicitBounds().AsRaw(), exemplarsKey(p.Exemplars())))
 						it.attrsItem(p.Attributes())
 					}
 				case pmetric.MetricTypeExponentialHistogram:
 					for q := 0; q < m.ExponentialHistogram().DataPoints().Len(); q++ {
 						p := m.ExponentialHistogram().DataPoints().At(q)
-						it.str(13, fmt.Sprintf("D%d%d", p.Timestamp(), p.Count()))
+						it.str(13, fmt.Sprintf("D%d%d|%d|%d|%v|%s", p.Timestamp(), p.Count(), p.Flags(), p.Scale(), p.Positive().BucketCounts().AsRaw(), exemplarsKey(p.Exemplars())))
 						it.attrsItem(p.Attributes())
 					}
 				case pmetric.MetricTypeSummary:
 					for q := 0; q < m.Summary().DataPoints().Len(); q++ {
 						p := m.Summary().DataPoints().At(q)
-						it.str(13, fmt.Sprintf("D%d%d", p.Timestamp(), p.Count()))
+						qs := ""
+						for x := 0; x < p.QuantileValues().Len(); x++ {
+							qs += fmt.Sprintf("%v=%v;", p.QuantileValues().At(x).Quantile(), p.QuantileValues().At(x).Value())
+						}
+						it.str(13, fmt.Sprintf("D%d%d|%d|%s", p.Timestamp(), p.Count(), p.Flags(), qs))
 						it.attrsItem(p.Attributes())
 					}
 				}
@@ -226,6 +232,25 @@ func flattenMetrics(md pmetric.Metrics) *items {
 		}
 	}
 	return it
+}
+
+// exemplars are not attribute maps of the telemetry items the processor is configured for: they must come out as they went in
+func exemplarsKey(es pmetric.ExemplarSlice) string {
+	out := ""
+	for i := 0; i < es.Len(); i++ {
+		e := es.At(i)
+		keys := make([]string, 0)
+		raw := e.FilteredAttributes().AsRaw()
+		for k := range raw {
+			keys = append(keys, k)
+		}
+		sort.Strings(keys)
+		out += fmt.Sprintf("x%d/%d/%v:", e.Timestamp(), e.IntValue(), e.DoubleValue())
+		for _, k := range keys {
+			out += fmt.Sprintf("%q=%v,", k, raw[k])
+		}
+	}
+	return out
 }
 
 type gen struct {
@@ -287,6 +312,15 @@ func (g *gen) attrs(m pcommon.Map) {
 	}
 }
 
+func (g *gen) exemplars(es pmetric.ExemplarSlice) {
+	for i, n := 0, g.r.Intn(3); i < n; i++ {
+		e := es.AppendEmpty()
+		e.SetIntValue(int64(i))
+		e.SetTimestamp(pcommon.Timestamp(i))
+		g.attrs(e.FilteredAttributes())
+	}
+}
+
 func (g *gen) traces() ptrace.Traces {
 	td := ptrace.NewTraces()
 	for i, nr := 0, 1+g.r.Intn(2); i < nr; i++ {
@@ -305,7 +339,16 @@ func (g *gen) traces() ptrace.Traces {
 				sp.SetKind(ptrace.SpanKind(g.r.Intn(5)))
 				sp.SetStartTimestamp(pcommon.Timestamp(100 + k))
 				sp.Status().SetMessage(g.str())
+				sp.Status().SetCode(ptrace.StatusCode(g.r.Intn(3)))
 				sp.TraceState().FromRaw(g.str())
+				sp.SetFlags(uint32(g.r.Intn(4)) << 8)
+				sp.SetDroppedAttributesCount(uint32(g.r.Intn(3)))
+				sp.SetDroppedEventsCount(uint32(g.r.Intn(3)))
+				sp.SetEndTimestamp(pcommon.Timestamp(100 + k + g.r.Intn(3)))
+				if g.r.Bool() {
+					sp.SetTraceID(pcommon.TraceID{byte(k + 1), 7})
+					sp.SetParentSpanID(pcommon.SpanID{byte(k), 2})
+				}
 				g.attrs(sp.Attributes())
 				for e, ne := 0, g.r.Intn(3); e < ne; e++ {
 					ev := sp.Events().AppendEmpty()
@@ -316,6 +359,9 @@ func (g *gen) traces() ptrace.Traces {
 				for l, nl := 0, g.r.Intn(2); l < nl; l++ {
 					lk := sp.Links().AppendEmpty()
 					lk.SetSpanID(pcommon.SpanID{9, byte(l)})
+					lk.TraceState().FromRaw(g.str())
+					lk.SetFlags(uint32(g.r.Intn(3)))
+					lk.SetDroppedAttributesCount(uint32(g.r.Intn(2)))
 					g.attrs(lk.Attributes())
 				}
 			}
@@ -338,6 +384,18 @@ func (g *gen) logs() plog.Logs {
 				lr.SetTimestamp(pcommon.Timestamp(k))
 				lr.Body().SetStr(g.str())
 				lr.SetSeverityText(g.str())
+				lr.SetSeverityNumber(plog.SeverityNumber(g.r.Intn(25)))
+				lr.SetFlags(plog.LogRecordFlags(g.r.Intn(3)))
+				lr.SetObservedTimestamp(pcommon.Timestamp(k + g.r.Intn(3)))
+				lr.SetDroppedAttributesCount(uint32(g.r.Intn(3)))
+				lr.SetEventName(g.str())
+				if g.r.Bool() {
+					lr.SetTraceID(pcommon.TraceID{byte(k + 1), 7})
+					lr.SetSpanID(pcommon.SpanID{byte(k + 1), 3})
+				}
+				if g.r.Chance(30) {
+					g.value(lr.Body(), 2)
+				}
 				g.attrs(lr.Attributes())
 			}
 		}
@@ -359,12 +417,18 @@ func (g *gen) metrics() pmetric.Metrics {
 				m.SetName(g.str())
 				m.SetDescription(g.str())
 				m.SetUnit("ms")
+				if g.r.Chance(30) {
+					g.attrs(m.Metadata())
+				}
 				np := g.r.Intn(3)
 				switch g.r.Intn(6) {
 				case 0:
 					for q := 0; q < np; q++ {
 						p := m.SetEmptyGauge().DataPoints().AppendEmpty()
 						p.SetIntValue(int64(q))
+						p.SetFlags(pmetric.DataPointFlags(g.r.Intn(2)))
+						p.SetTimestamp(pcommon.Timestamp(g.r.Intn(5)))
+						g.exemplars(p.Exemplars())
 						g.attrs(p.Attributes())
 					}
 				case 1:
@@ -372,13 +436,21 @@ func (g *gen) metrics() pmetric.Metrics {
 					for q := 0; q < np; q++ {
 						p := s.DataPoints().AppendEmpty()
 						p.SetDoubleValue(float64(q))
+						p.SetFlags(pmetric.DataPointFlags(g.r.Intn(2)))
+						p.SetStartTimestamp(pcommon.Timestamp(g.r.Intn(5)))
+						g.exemplars(p.Exemplars())
 						g.attrs(p.Attributes())
 					}
 				case 2:
 					h := m.SetEmptyHistogram()
+					h.SetAggregationTemporality(pmetric.AggregationTemporality(g.r.Intn(3)))
 					for q := 0; q < np; q++ {
 						p := h.DataPoints().AppendEmpty()
 						p.SetCount(uint64(q))
+						p.SetFlags(pmetric.DataPointFlags(g.r.Intn(2)))
+						p.BucketCounts().FromRaw([]uint64{uint64(q), 1})
+						p.ExplicitBounds().FromRaw([]float64{1.5})
+						g.exemplars(p.Exemplars())
 						g.attrs(p.Attributes())
 					}
 				case 3:
@@ -386,6 +458,10 @@ func (g *gen) metrics() pmetric.Metrics {
 					for q := 0; q < np; q++ {
 						p := h.DataPoints().AppendEmpty()
 						p.SetCount(uint64(q))
+						p.SetFlags(pmetric.DataPointFlags(g.r.Intn(2)))
+						p.SetScale(int32(g.r.Intn(3)))
+						p.Positive().BucketCounts().FromRaw([]uint64{1, uint64(q)})
+						g.exemplars(p.Exemplars())
 						g.attrs(p.Attributes())
 					}
 				case 4:
@@ -393,6 +469,10 @@ func (g *gen) metrics() pmetric.Metrics {
 					for q := 0; q < np; q++ {
 						p := s.DataPoints().AppendEmpty()
 						p.SetCount(uint64(q))
+						p.SetFlags(pmetric.DataPointFlags(g.r.Intn(2)))
+						qv := p.QuantileValues().AppendEmpty()
+						qv.SetQuantile(0.5)
+						qv.SetValue(float64(q))
 						g.attrs(p.Attributes())
 					}
 				}
